@@ -101,7 +101,7 @@ def detect(pid, n, props):
             results[p] = {"detected": detected, "inconclusive": inconcl, "violations": len(viol), "first_signatures": sigs, "wall_s": round(time.time() - t, 1)}
             print(f"  {pid}-{n} vs {p}: {'DETECTED' if detected else ('inconclusive' if inconcl else 'missed')} ({results[p]['wall_s']} s) {sigs[:1]}")
     finally:
-        sh("git checkout -- .", "/repo")
+        sh("git checkout -- . && git clean -fdq src", "/repo")
     m = load_meta(pid, n)
     det = m.get("detection", {})
     det.update(results)
